@@ -144,24 +144,46 @@ def is_const(e: ast.AST) -> bool:
 # R1a  split(): prefix chain
 # =====================================================================================================
 
-def _text_atom(a: Atom, var: str) -> T.Callable[[str], bool]:
-    """Truth of an atom of split()'s loop body for a *class of requirement texts* given by a representative."""
-    if a.kind == 'cmp' and a.args[0] == 'eq' and a.args[1] == var and is_const(expr_of(a.args[2])):
-        c = const_of(expr_of(a.args[2]))
-        return lambda t: t == c
+def _folded(ctx: RuleCtx, mod: Module, e: ast.AST) -> T.Any:
+    """A literal, or a module-level constant (table) folded from source; raises Undecided otherwise."""
+    if is_const(e):
+        return const_of(e)
+    if isinstance(e, (ast.Name, ast.Attribute)):
+        return fold_expr(ctx.repo, mod, e)
+    raise Undecided(f'not a constant: {short(e)}')
+
+
+def _is_folded(ctx: RuleCtx, mod: Module, e: ast.AST) -> bool:
+    try:
+        _folded(ctx, mod, e)
+        return True
+    except Undecided:
+        return False
+
+
+def _text_atom(ctx: RuleCtx, mod: Module, a: Atom, var: str) -> T.Tuple[T.Callable[[str], bool], T.List[str]]:
+    """Truth of an atom of split()'s loop body for a *class of requirement texts* given by a representative,
+    and the string constants the atom mentions (module-level constant tables are folded)."""
+    def strs(c: T.Any) -> T.List[str]:
+        return [c] if isinstance(c, str) else [x for x in c if isinstance(x, str)]
+    if a.kind == 'cmp' and a.args[0] == 'eq' and a.args[1] == var and _is_folded(ctx, mod, expr_of(a.args[2])):
+        c = _folded(ctx, mod, expr_of(a.args[2]))
+        return (lambda t: t == c), []
     if a.kind == 'truth':
         e = expr_of(a.args[0])
-        if isinstance(e, ast.Call) and isinstance(e.func, ast.Attribute) and norm(e.func.value) == var and len(e.args) == 1 and is_const(e.args[0]):
-            c = const_of(e.args[0])
+        if isinstance(e, ast.Call) and isinstance(e.func, ast.Attribute) and norm(e.func.value) == var and len(e.args) == 1 and _is_folded(ctx, mod, e.args[0]):
+            c = _folded(ctx, mod, e.args[0])
+            if isinstance(c, list):
+                c = tuple(c)
             if isinstance(c, (str, tuple)) and e.func.attr == 'startswith':
-                return lambda t: t.startswith(c)
+                return (lambda t: t.startswith(c)), strs(c)
             if isinstance(c, (str, tuple)) and e.func.attr == 'endswith':
-                return lambda t: t.endswith(c)
-    if a.kind == 'in' and is_const(expr_of(a.args[1])):
+                return (lambda t: t.endswith(c)), []
+    if a.kind == 'in' and _is_folded(ctx, mod, expr_of(a.args[1])):
         k = _leading_len(expr_of(a.args[0]), var)
-        cs = const_of(expr_of(a.args[1]))
+        cs = _folded(ctx, mod, expr_of(a.args[1]))
         if k is not None and isinstance(cs, (tuple, set, list, frozenset)):
-            return lambda t: t[:k] in cs
+            return (lambda t: t[:k] in cs), strs(cs)
     raise Undecided(f'split: atom outside the prefix/suffix vocabulary: {a!r}')
 
 
@@ -202,20 +224,23 @@ def r1_split(ctx: RuleCtx) -> None:
     if len(loops) != 1 or not isinstance(loops[0].target, ast.Name):
         raise Undecided('split: expected one loop over the comma separated parts')
     loop = loops[0]
-    var = loop.target.id
+    src = var = loop.target.id
+    # the part may be stripped into a new local: `req = raw_req.strip()`
+    if loop.body and isinstance(loop.body[0], ast.Assign) and isinstance(loop.body[0].targets[0], ast.Name) \
+            and norm(strip_wrappers(loop.body[0].value, ('strip',))[0]) == src:
+        var = loop.body[0].targets[0].id
     param = fn.args.args[0].arg
     it = loop.iter
     ok_iter = isinstance(it, ast.Call) and isinstance(it.func, ast.Attribute) and it.func.attr == 'split' and [norm(a) for a in it.args] == ["','"] \
         and names_in(it.func.value) == {param}
     ctx.require(ok_iter, 'split: the requirement is cut at commas', mod, 'split', loop.iter, f'the parts are not produced by <requirement>.split(\',\'): {short(loop.iter)}')
     tab = tables.extract(fn, body=loop.body, effects=eff, inline=False, name='split:loop')
-    preds = {a: _text_atom(a, var) for a in tab.atoms()}
+    preds: T.Dict[Atom, T.Callable[[str], bool]] = {}
     # the prefixes the table itself tests, plus the documented operators
     heads: T.Set[str] = set(OPS) | {''}
     for a in tab.atoms():
-        for n in ast.walk(expr_of(a.args[0] if a.kind == 'truth' else a.args[-1])):
-            if isinstance(n, ast.Constant) and isinstance(n.value, str) and n.value not in ('*', '.*'):
-                heads.add(n.value)
+        preds[a], consts = _text_atom(ctx, mod, a, var)
+        heads |= set(consts)
     classes = ['*'] + [h + t for h in sorted(heads, key=lambda x: (len(x), x)) for t in ('1', '1.*')]
     ctx.floor('split: text classes (operator prefix x wildcard suffix)', len(classes), 19)
     for text in classes:
@@ -229,9 +254,9 @@ def r1_split(ctx: RuleCtx) -> None:
         # the part is stripped before any test
         first = row.path.events[0] if row.path.events else None
         stripped = bool(stmts) and first is not None and first.kind == 'stmt' and isinstance(stmts[0], ast.Assign) and norm(stmts[0].targets[0]) == var \
-            and norm(strip_wrappers(stmts[0].value, ('strip',))[0]) == var and strip_wrappers(stmts[0].value, ('strip',))[1] == ['strip']
+            and norm(strip_wrappers(stmts[0].value, ('strip',))[0]) == src and strip_wrappers(stmts[0].value, ('strip',))[1] == ['strip']
         if not stripped:
-            ctx.violation(mod, 'split', 'part is stripped before the operator tests', f'for a part like {text!r} the row does not start with `{var} = {var}.strip()`: '
+            ctx.violation(mod, 'split', 'part is stripped before the operator tests', f'for a part like {text!r} the row does not start with `{var} = {src}.strip()`: '
                           f'"1.0, <2" would hand " <2" to the prefix tests', loop)
             continue
         ys = [s.value.value for s in stmts if isinstance(s, ast.Expr) and isinstance(s.value, ast.Yield)]
@@ -330,6 +355,17 @@ def _bump_denotation(e: ast.AST, n: int, pat: T.Tuple[int, ...]) -> T.Tuple[T.An
         a, pol = tables.canon(e.test, True)
         v = _req_atom(a, 'V', n, pat)
         return _bump_denotation(e.body if v == pol else e.orelse, n, pat)
+    # next((i for i in range(N) if V._v[i] != 0), D): the same search as the for/else idiom
+    if isinstance(e, ast.Call) and norm(e.func) == 'next' and len(e.args) == 2 and isinstance(e.args[0], ast.GeneratorExp) and len(e.args[0].generators) == 1 \
+            and isinstance(e.args[1], ast.Constant) and isinstance(e.args[1].value, int):
+        g = e.args[0].generators[0]
+        rargs = g.iter.args if isinstance(g.iter, ast.Call) and norm(g.iter.func) == 'range' else []
+        if len(rargs) == 2 and isinstance(rargs[0], ast.Constant) and rargs[0].value == 0:
+            rargs = rargs[1:]
+        if isinstance(g.target, ast.Name) and norm(e.args[0].elt) == g.target.id and len(rargs) == 1 and isinstance(rargs[0], ast.Constant) and len(g.ifs) == 1 and not g.is_async:
+            a, pol = tables.canon(g.ifs[0], True)
+            if a.kind == 'cmp' and a.args[0] == 'eq' and pol is False and {a.args[1], a.args[2]} == {f'V._v[{g.target.id}]', '0'}:
+                return ('first-nonzero', rargs[0].value, e.args[1].value)
     raise Undecided(f'cargo_parse: bump index expression {short(e)} is outside the shapes this rule reads')
 
 
@@ -438,11 +474,24 @@ def r1_cargo_parse(ctx: RuleCtx) -> None:
             node = row.path.events[-1].node if row.path.events else loop
             got: T.List[T.Tuple[str, T.Any]] = []
             shape_bad = None
+            pairs: T.List[ast.AST] = []
             for st in rest:
                 c = st.value if isinstance(st, ast.Expr) else None
-                if not (isinstance(c, ast.Call) and isinstance(c.func, ast.Attribute) and c.func.attr == 'append' and norm(c.func.value) == OUT and len(c.args) == 1):
-                    continue
-                pair = c.args[0]
+                if isinstance(c, ast.Call) and isinstance(c.func, ast.Attribute) and norm(c.func.value) == OUT:
+                    if c.func.attr == 'append' and len(c.args) == 1 and not c.keywords:
+                        pairs.append(c.args[0])
+                    elif c.func.attr == 'extend' and len(c.args) == 1 and isinstance(c.args[0], (ast.List, ast.Tuple)) and not any(isinstance(x, ast.Starred) for x in c.args[0].elts):
+                        pairs.extend(c.args[0].elts)
+                    else:
+                        raise Undecided(f'cargo_parse: the constraint list is changed by `{short(st)}`, a form this rule does not read')
+                elif isinstance(st, ast.AugAssign) and norm(st.target) == OUT:
+                    if isinstance(st.op, ast.Add) and isinstance(st.value, (ast.List, ast.Tuple)) and not any(isinstance(x, ast.Starred) for x in st.value.elts):
+                        pairs.extend(st.value.elts)
+                    else:
+                        raise Undecided(f'cargo_parse: the constraint list is changed by `{short(st)}`, a form this rule does not read')
+                elif OUT in names_in(st) and not (isinstance(st, ast.Assign) and OUT not in {n.id for t in st.targets for n in ast.walk(t) if isinstance(n, ast.Name)}):
+                    raise Undecided(f'cargo_parse: the constraint list is used by `{short(st)}`, a form this rule does not read')
+            for pair in pairs:
                 if not (isinstance(pair, ast.Tuple) and len(pair.elts) == 2 and (attr_chain(pair.elts[0]) or '').startswith('operator.')):
                     shape_bad = f'appends {short(pair)}, not an (operator.<cmp>, bound) pair'
                     continue
@@ -804,19 +853,54 @@ def r2_tokens(ctx: RuleCtx) -> None:
     mod = ctx.repo.module(VERSION)
     init = mod.func('SemVer.__init__')
     facts = _tok_language(ctx, mod)
-    loops = [s for s in ast.walk(init) if isinstance(s, ast.For) and isinstance(s.iter, ast.Call) and isinstance(s.iter.func, ast.Attribute) and s.iter.func.attr == 'finditer']
-    if len(loops) != 1 or norm(loops[0].iter.func.value) != '_SEMVER_TOK_RE' or not isinstance(loops[0].target, ast.Name):     # type: ignore[attr-defined]
-        raise Undecided('SemVer.__init__: expected one loop `for m in _SEMVER_TOK_RE.finditer(<input>)`')
-    loop = loops[0]
-    m = loop.target.id     # type: ignore[attr-defined]
+    def tok_loops(f: ast.AST) -> T.List[ast.For]:
+        return [s for s in ast.walk(f) if isinstance(s, ast.For) and isinstance(s.iter, ast.Call) and isinstance(s.iter.func, ast.Attribute) and s.iter.func.attr == 'finditer']
     inp = init.args.args[1].arg
-    ctx.require([norm(a) for a in loop.iter.args] == [inp], 'the tokenizer runs over the whole input text', mod, 'SemVer.__init__', loop.iter,     # type: ignore[attr-defined]
-                f'finditer is applied to {[norm(a) for a in loop.iter.args]}, not to the input')     # type: ignore[attr-defined]
     stores = [s for s in walk_no_nested(init) if isinstance(s, ast.Assign) and norm(s.targets[0]) == 'self._v']
     if len(stores) != 1 or not isinstance(stores[0].value, ast.Name):
         raise Undecided('SemVer.__init__: `self._v = <vector>` not found')
     vec = stores[0].value.id
-    tab = tables.extract(init, body=loop.body, effects=eff, inline=False, name='SemVer.__init__:token')
+    host: ast.FunctionDef = init
+    hq = 'SemVer.__init__'
+    loops = tok_loops(init)
+    if not loops:
+        # the tokenising loop may live in a private helper of the class that __init__ calls with the input text
+        meths = mod.methods('SemVer')
+        cands = []
+        for st in walk_no_nested(init):
+            c = st.value if isinstance(st, ast.Assign) else None
+            if isinstance(c, ast.Call) and isinstance(c.func, ast.Attribute) and norm(c.func.value) in ('self', 'SemVer', 'type(self)', 'self.__class__') \
+                    and c.func.attr in meths and [norm(a) for a in c.args] == [inp] and not c.keywords and tok_loops(meths[c.func.attr]):
+                cands.append((st, meths[c.func.attr]))
+        if len(cands) != 1:
+            raise Undecided('SemVer.__init__: expected one loop `for m in _SEMVER_TOK_RE.finditer(<input>)` (here or in one helper called with the input)')
+        st, host = cands[0]     # type: ignore[assignment]
+        hq = f'SemVer.{host.name}'
+        hparams = [a.arg for a in host.args.args if a.arg not in ('self', 'cls')]
+        rets = [r.value for r in walk_no_nested(host) if isinstance(r, ast.Return)]
+        tgt = st.targets[0]
+        if len(hparams) != 1 or not rets:
+            raise Undecided(f'{hq}: helper signature / returns not readable')
+        if isinstance(tgt, ast.Tuple) and vec in [norm(x) for x in tgt.elts]:
+            pos = [norm(x) for x in tgt.elts].index(vec)
+            names = {norm(r.elts[pos]) if isinstance(r, ast.Tuple) and len(r.elts) == len(tgt.elts) and isinstance(r.elts[pos], ast.Name) else None for r in rets}
+        elif norm(tgt) == vec:
+            names = {norm(r) if isinstance(r, ast.Name) else None for r in rets}
+        else:
+            raise Undecided(f'SemVer.__init__: the result of {hq} does not reach self._v through a plain local')
+        if len(names) != 1 or None in names:
+            raise Undecided(f'{hq}: the returned vector is not one local list')
+        vec = names.pop()     # type: ignore[assignment]
+        inp = hparams[0]
+        loops = tok_loops(host)
+        ctx.note(f'tokenising loop found in helper {hq} (called from __init__ with the input text)')
+    if len(loops) != 1 or norm(loops[0].iter.func.value) != '_SEMVER_TOK_RE' or not isinstance(loops[0].target, ast.Name):     # type: ignore[attr-defined]
+        raise Undecided('SemVer.__init__: expected one loop `for m in _SEMVER_TOK_RE.finditer(<input>)`')
+    loop = loops[0]
+    m = loop.target.id     # type: ignore[attr-defined]
+    ctx.require([norm(a) for a in loop.iter.args] == [inp], 'the tokenizer runs over the whole input text', mod, hq, loop.iter,     # type: ignore[attr-defined]
+                f'finditer is applied to {[norm(a) for a in loop.iter.args]}, not to the input')     # type: ignore[attr-defined]
+    tab = tables.extract(host, body=loop.body, effects=eff, inline=False, name=f'{hq}:token')
     G = {i: Atom('truth', (f'{m}.group({i})',)) for i in (1, 2, 3)}
     counts = [a for a in tab.atoms() if a.kind == 'cmp' and a.args[0] == 'lt' and a.args[2] == '3' and not a.args[1].startswith('len(')]
     pads = [a for a in tab.atoms() if a.kind == 'cmp' and a.args[0] == 'lt' and a.args[2] == '3' and a.args[1] == f'len({vec})']
@@ -825,7 +909,7 @@ def r2_tokens(ctx: RuleCtx) -> None:
     count = counts[0].args[1]
     # the flag that is set together with the -1 marker
     flags = {norm(s.targets[0]) for s in ast.walk(loop) if isinstance(s, ast.Assign) and isinstance(s.value, ast.Constant) and s.value.value is True} & \
-        {norm(s.targets[0]) for s in ast.walk(init) if isinstance(s, ast.Assign) and isinstance(s.value, ast.Constant) and s.value.value is False}
+        {norm(s.target if isinstance(s, ast.AnnAssign) else s.targets[0]) for s in ast.walk(host) if isinstance(s, (ast.Assign, ast.AnnAssign)) and isinstance(s.value, ast.Constant) and s.value.value is False}
     if len(flags) != 1:
         raise Undecided(f'SemVer.__init__: the pre-release state flag is not identifiable (candidates {sorted(flags)})')
     pre = flags.pop()
@@ -851,16 +935,16 @@ def r2_tokens(ctx: RuleCtx) -> None:
             incs = [s for s in stmts_of(r) if isinstance(s, ast.AugAssign) and norm(s.target) == count]
             if c.get(PRE) is True:
                 ctx.require(app == [f'int({m}.group(1))'] and not incs, 'digit token inside the pre-release section: appended as int, not counted as a release component', mod,
-                            'SemVer.__init__', f'digit token, pre-release :: {norm(node)}', f'row `{r!r}` appends {app} and changes the count {len(incs)} time(s); expected [int({m}.group(1))] and no count change', node)
+                            hq, f'digit token, pre-release :: {norm(node)}', f'row `{r!r}` appends {app} and changes the count {len(incs)} time(s); expected [int({m}.group(1))] and no count change', node)
             elif c.get(PRE) is False and c.get(counts[0]) is True:
                 ok = app == [f'int({m}.group(1))'] and len(incs) == 1 and isinstance(incs[0].op, ast.Add) and norm(incs[0].value) == '1'
-                ctx.require(ok, 'digit token among the first three components: appended as int and counted', mod, 'SemVer.__init__', f'digit token, release part :: {norm(node)}',
+                ctx.require(ok, 'digit token among the first three components: appended as int and counted', mod, hq, f'digit token, release part :: {norm(node)}',
                             f'row `{r!r}` appends {app}, count changes: {[norm(i) for i in incs]}; expected [int({m}.group(1))] and {count} += 1', node)
             elif c.get(PRE) is False and c.get(counts[0]) is False:
                 pass    # a fourth numeric component: outside the SemVer grammar, not judged
             else:
                 # no state test at all: a numeric pre-release identifier would be lost or counted
-                ctx.violation(mod, 'SemVer.__init__', f'digit token :: {norm(node)}', f'row `{r!r}` handles a digit token without distinguishing the pre-release section from the '
+                ctx.violation(mod, hq, f'digit token :: {norm(node)}', f'row `{r!r}` handles a digit token without distinguishing the pre-release section from the '
                               f'three release components (tests seen: {[repr(a) for a in c]})', node)
         elif c.get(G[2]) is True:
             # ---- identifier token
@@ -874,7 +958,7 @@ def r2_tokens(ctx: RuleCtx) -> None:
                           and isinstance(expr_of(a.args[1]), ast.Subscript) and _leading_len(expr_of(a.args[1]), norm(expr_of(a.args[1]).value)) == len(const_of(expr_of(a.args[2])))]     # type: ignore[attr-defined]
             payload = app_nodes[-1] if app_nodes else None
             if payload is None:
-                ctx.violation(mod, 'SemVer.__init__', f'identifier token :: {norm(node)}', f'row `{r!r}` drops an identifier token', node)
+                ctx.violation(mod, hq, f'identifier token :: {norm(node)}', f'row `{r!r}` drops an identifier token', node)
                 continue
             # core of the payload: m.group(2) or m.group(2)[k:]
             core_e = payload
@@ -891,7 +975,7 @@ def r2_tokens(ctx: RuleCtx) -> None:
                 pres = [const_of(expr_of(a.args[0]).args[0]) for a, v in strip_atoms if v and is_const(expr_of(a.args[0]).args[0])]     # type: ignore[attr-defined]
                 pres += [const_of(expr_of(a.args[2])) for a, v in lead_atoms if v]
                 if len(pres) != 1 or not isinstance(pres[0], str) or len(pres[0]) != k:
-                    ctx.violation(mod, 'SemVer.__init__', f'section marker strip :: {norm(node)}', f'row `{r!r}` drops {k} leading character(s) of the identifier but tested for the prefix {pres}', node)
+                    ctx.violation(mod, hq, f'section marker strip :: {norm(node)}', f'row `{r!r}` drops {k} leading character(s) of the identifier but tested for the prefix {pres}', node)
                     continue
                 prefix = pres[0]
             elif core != f'{m}.group(2)':
@@ -900,11 +984,11 @@ def r2_tokens(ctx: RuleCtx) -> None:
                 marker = [norm(x) for x in app_nodes[:-1]]
                 padded = any(a in pads and v is False for a, v in c.items())
                 sets = [s for s in stmts_of(r) if isinstance(s, ast.Assign) and norm(s.targets[0]) == pre and norm(s.value) == 'True']
-                ctx.require(marker == ['-1'] and padded and bool(sets), 'first identifier: release part padded to three, slot 3 = -1, pre-release state entered', mod, 'SemVer.__init__',
+                ctx.require(marker == ['-1'] and padded and bool(sets), 'first identifier: release part padded to three, slot 3 = -1, pre-release state entered', mod, hq,
                             f'pre-release start :: {norm(node)}', f'row `{r!r}`: values appended before the identifier {marker} (expected [-1]), padded to three components: {padded}, '
                             f'state flag set: {bool(sets)}', node)
             elif c.get(PRE) is True:
-                ctx.require(len(app_nodes) == 1 and not prefix, 'identifier inside the pre-release section: appended as is', mod, 'SemVer.__init__', f'identifier, pre-release :: {norm(node)}',
+                ctx.require(len(app_nodes) == 1 and not prefix, 'identifier inside the pre-release section: appended as is', mod, hq, f'identifier, pre-release :: {norm(node)}',
                             f'row `{r!r}` appends {[norm(x) for x in app_nodes]} (stripped prefix {prefix!r}); expected the identifier alone, unstripped', node)
             # E6: can this identifier (after the strip of this row) consist of digits only?
             w = rx.intersects(_re.escape(prefix) + r'[0-9]+', facts['ident'])
@@ -914,14 +998,14 @@ def r2_tokens(ctx: RuleCtx) -> None:
             if w is None:
                 ctx.ok(f'identifier row ({"after stripping " + repr(prefix) if prefix else "unstripped"}): the identifier alternative cannot yield an all-digit identifier here; stored as text')
             else:
-                ctx.require(guarded, f'identifier row (after stripping {prefix!r}): all-digit identifiers such as {w!r} are converted with a guarded int()', mod, 'SemVer.__init__',
+                ctx.require(guarded, f'identifier row (after stripping {prefix!r}): all-digit identifiers such as {w!r} are converted with a guarded int()', mod, hq,
                             f'{fam} :: {norm(node)}',
                             f'{fam}: the identifier alternative {facts["ident"]!r} matches {w!r} as one token; this row strips {prefix!r} and appends `{norm(payload)}` unconverted, '
                             f'so the numeric identifier {w[len(prefix):]!r} is stored as str (e.g. 1.0.0{w} : SemVer("1.0.0-2") < SemVer("1.0.0-10") is False)', node)
         else:
             # ---- neither digits nor identifier: by the language facts this is the build alternative
             n_rows['build'] += 1
-            ctx.require(r.outcome == ('break',) and not appended(r), 'build metadata token stops tokenisation', mod, 'SemVer.__init__', f'build token :: {norm(node)}',
+            ctx.require(r.outcome == ('break',) and not appended(r), 'build metadata token stops tokenisation', mod, hq, f'build token :: {norm(node)}',
                         f'row `{r!r}` leaves by {r.outcome} after appending {[norm(x) for x in appended(r)]}; "+build" must end the scan (break) without storing anything', node)
     ctx.floor('tokenizer rows: digit', n_rows['digit'], 3)
     ctx.floor('tokenizer rows: identifier', n_rows['ident'], 3)
@@ -996,6 +1080,35 @@ REF_DENOTATION = {  # IR class -> (meaning, denoting construct)   (Rust referenc
     'Any': ('disjunction', 'any'), 'All': ('conjunction', 'all')}
 
 
+def _short_circuit_loop(fn: ast.FunctionDef, loops: T.List[ast.AST], fields: T.List[str], me: str) -> str:
+    """'any' / 'all' when the arm is the explicit loop form of the builtin; 'unreadable: ...' otherwise."""
+    if len(loops) != 1 or len(fields) != 1:
+        return 'unreadable: more than one loop in the arm'
+    lp = loops[0]
+    ir, cfgs = fn.args.args[0].arg, fn.args.args[1].arg
+    block = None
+    for n in ast.walk(fn):
+        for fld in ('body', 'orelse', 'finalbody'):
+            b = getattr(n, fld, None)
+            if isinstance(b, list) and lp in b:
+                block = b
+    if block is None or not isinstance(lp, ast.For) or lp.orelse or not isinstance(lp.target, ast.Name) or norm(lp.iter) != f'{ir}.{fields[0]}':
+        return f'unreadable: loop {short(lp)}'
+    after = block[block.index(lp) + 1:block.index(lp) + 2]
+    if not (len(lp.body) == 1 and isinstance(lp.body[0], ast.If) and not lp.body[0].orelse and len(lp.body[0].body) == 1 and isinstance(lp.body[0].body[0], ast.Return)
+            and isinstance(lp.body[0].body[0].value, ast.Constant) and len(after) == 1 and isinstance(after[0], ast.Return) and isinstance(after[0].value, ast.Constant)):
+        return f'unreadable: loop {short(lp)}'
+    a, pol = tables.canon(lp.body[0].test, True)
+    if a != Atom('truth', (f'{me}({lp.target.id}, {cfgs})',)):
+        return f'unreadable: loop test {a!r}'
+    inside, tail = lp.body[0].body[0].value.value, after[0].value.value
+    if (pol, inside, tail) == (True, True, False):
+        return 'any'
+    if (pol, inside, tail) == (False, False, True):
+        return 'all'
+    return f'a loop returning {inside} as soon as an argument is {"true" if pol else "false"}, else {tail}'
+
+
 def _eval_arms(mod: Module) -> T.Dict[str, T.Tuple[str, T.Optional[ast.AST]]]:
     """class -> (denoting construct found | 'missing' | description of something else, node)"""
     fn = mod.func('_eval_cfg')
@@ -1016,11 +1129,21 @@ def _eval_arms(mod: Module) -> T.Dict[str, T.Tuple[str, T.Optional[ast.AST]]]:
             out[cname] = ('missing', node)
             continue
         others = {a for r in rows for a in r.conds if a.kind != 'isinstance'}
-        if len(others) != 1 or len(rows) != 2:
-            out[cname] = (f'{len(rows)} rows over the tests {[repr(a) for a in others]}', node)
+        loops = {id(e.node): e.node for r in rows for e in r.path.events if e.kind == 'iter'}
+        if loops:
+            # explicit short-circuit loop:  for x in ir.f: if [not] me(x, cfgs): return B   ; return not B
+            out[cname] = (_short_circuit_loop(fn, list(loops.values()), [x[0] for x in info['fields']], me), node)
             continue
-        atom = others.pop()
-        val = {r.conds[atom]: r.outcome[1] for r in rows}
+        if not others and len(rows) == 1 and rows[0].outcome[1] not in ('True', 'False', 'None'):
+            # a value returned as is (not decomposed because it is not a boolean expression): `return f(x)` == truth of f(x)
+            atom, pol0 = tables.canon(expr_of(rows[0].outcome[1]), True)
+            val = {pol0: 'True', (not pol0): 'False'}
+        elif len(others) != 1 or len(rows) != 2:
+            out[cname] = (f'unreadable: {len(rows)} rows over the tests {[repr(a) for a in others]}', node)
+            continue
+        else:
+            atom = others.pop()
+            val = {r.conds[atom]: r.outcome[1] for r in rows}
         if val == {True: 'True', False: 'False'}:
             pol = True
         elif val == {True: 'False', False: 'True'}:
@@ -1062,6 +1185,8 @@ def r3_eval(ctx: RuleCtx) -> None:
     for cname in sorted(built):
         found, node = arms[cname]
         meaning, want = REF_DENOTATION[cname]
+        if found.startswith('unreadable'):
+            raise Undecided(f'_eval_cfg: arm for {cname} is in a form this rule does not read ({found})')
         ctx.require(found == want, f'_eval_cfg: arm for {cname} denotes "{meaning}" by `{want}`', mod, '_eval_cfg', f'arm for {cname}',
                     f'{cname} must denote "{meaning}" (`{want}` over its field(s) and the configuration); the arm ' +
                     ('is missing: the value falls through to the MesonBugException arm' if found == 'missing' else f'is {found}'), node)
@@ -1106,14 +1231,28 @@ def _lexer_table(ctx: RuleCtx, mod: Module) -> T.Dict[str, str]:
             return lambda s, w, f: f
         if a == Atom('truth', (W,)):
             return lambda s, w, f: w != ''
-        if a.kind == 'in' and a.args[0] in (S, W) and is_const(expr_of(a.args[1])):
-            cs = const_of(expr_of(a.args[1]))
+        if a.kind == 'in' and a.args[0] in (S, W) and _is_folded(ctx, mod, expr_of(a.args[1])):
+            cs = _folded(ctx, mod, expr_of(a.args[1]))     # a literal or a module-level constant table (dict: its keys)
+            if not isinstance(cs, (dict, set, frozenset, tuple, list, str)):
+                raise Undecided(f'lexer: membership in {cs!r}')
             return (lambda s, w, f: s in cs) if a.args[0] == S else (lambda s, w, f: w in cs)
         if a.kind == 'cmp' and a.args[0] == 'eq' and a.args[1] in (S, W) and is_const(expr_of(a.args[2])):
             c = const_of(expr_of(a.args[2]))
             return (lambda s, w, f: s == c) if a.args[1] == S else (lambda s, w, f: w == c)
         raise Undecided(f'lexer: atom outside the vocabulary: {a!r}')
     preds = {a: atom_pred(a) for a in tab.atoms()}
+
+    def table_lookup(y: ast.AST, s_cls: str, w_cls: str) -> ast.AST:
+        """`TABLE[word]` / `TABLE[char]` with a module-level constant dict: the member the table holds for this class (policy form c)."""
+        if isinstance(y, ast.Tuple) and y.elts and isinstance(y.elts[0], ast.Subscript) and isinstance(y.elts[0].value, ast.Name) and norm(y.elts[0].slice) in (S, W):
+            tbl = _folded(ctx, mod, y.elts[0].value)
+            key = s_cls if norm(y.elts[0].slice) == S else w_cls
+            if not isinstance(tbl, dict):
+                raise Undecided(f'lexer: {short(y)} does not index a constant table')
+            v = tbl.get(key)
+            txt = f'{v.cls}.{v.name}' if hasattr(v, 'cls') and hasattr(v, 'name') else f'<no entry for {key!r}: KeyError>'
+            return ast.Tuple(elts=[ast.Name(id=txt, ctx=ast.Load())] + list(y.elts[1:]), ctx=ast.Load())
+        return y
     kw_tokens: T.Dict[str, str] = {}
     bad_string: T.Optional[T.Tuple[tables.Row, str]] = None
     n = 0
@@ -1125,7 +1264,7 @@ def _lexer_table(ctx: RuleCtx, mod: Module) -> T.Dict[str, str]:
         n += 1
         r = rows[0]
         sts = stmts_of(r)
-        ys = [norm(st.value.value) for st in sts if isinstance(st, ast.Expr) and isinstance(st.value, ast.Yield)]
+        ys = [norm(table_lookup(st.value.value, s_cls, w_cls)) for st in sts if isinstance(st, ast.Expr) and isinstance(st.value, ast.Yield)]
         writes = {norm(st.targets[0]): norm(st.value) for st in sts if isinstance(st, ast.Assign) and norm(st.targets[0]) in (START, F)}
         node = r.path.events[-1].node if r.path.events else loop
         desc = f'character {s_cls!r}, pending word {w_cls!r}, {"inside" if in_str else "outside"} a string literal'
@@ -1191,6 +1330,8 @@ def r3_maps(ctx: RuleCtx) -> None:
         tok = kw.get(k)
         cls = tmap.get(tok or '')
         den = arms.get(cls or '', ('?', None))[0]
+        if den.startswith('unreadable'):
+            raise Undecided(f'_eval_cfg: arm for {cls} is in a form this rule does not read ({den})')
         ctx.require(den == k, f'keyword {k!r} -> TokenType.{tok} -> {cls} -> `{den}`', mod, '<module>', f'keyword chain {k}',
                     f'the keyword {k!r} is lexed to TokenType.{tok}, parsed to {cls}, and evaluated by `{den}`: the three maps do not compose to `{k}`')
 
@@ -1213,6 +1354,24 @@ class _SubCalls(ast.NodeTransformer):
             self.seen.append(self.n)
             return ast.Name(id=f'sub{self.n}', ctx=ast.Load())
         return node
+
+
+def _lookahead_token(v: ast.AST) -> T.Optional[str]:
+    """j when v is `lookJ[0] if lookJ is not None else None` (or the mirrored / truthiness spelling): the type of the
+    token after read j, None at the end of the stream - the same value the if/else unpacking binds."""
+    if not isinstance(v, ast.IfExp):
+        return None
+    a, pol = tables.canon(v.test, True)
+    if a.kind == 'is' and a.args[1] == 'None' and a.args[0].startswith('look') and a.args[0][4:].isdigit():
+        j, present_when = a.args[0][4:], not pol
+    elif a.kind == 'truth' and a.args[0].startswith('look') and a.args[0][4:].isdigit():
+        j, present_when = a.args[0][4:], pol
+    else:
+        return None
+    yes, no = (v.body, v.orelse) if present_when else (v.orelse, v.body)
+    if norm(yes) == f'look{j}[0]' and isinstance(no, ast.Constant) and no.value is None:
+        return j
+    return None
 
 
 def _trace(fn: ast.FunctionDef, p: Path) -> T.Optional[T.Tuple[T.List[T.Tuple[T.Any, ...]], T.Tuple[T.Any, ...]]]:
@@ -1311,7 +1470,9 @@ def _trace(fn: ast.FunctionDef, p: Path) -> T.Optional[T.Tuple[T.List[T.Tuple[T.
         elif isinstance(st, (ast.Assign, ast.AnnAssign)) and isinstance(st.targets[0] if isinstance(st, ast.Assign) else st.target, ast.Name):
             name = (st.targets[0] if isinstance(st, ast.Assign) else st.target).id     # type: ignore[union-attr]
             if st.value is not None:
-                env[name] = with_subs(resolve(st.value, env))
+                v = resolve(st.value, env)
+                lk = _lookahead_token(v)
+                env[name] = ast.Name(id=f'looktok{lk}', ctx=ast.Load()) if lk is not None else with_subs(v)
         elif isinstance(st, ast.Expr) and isinstance(st.value, ast.Call) and isinstance(st.value.func, ast.Attribute) and st.value.func.attr == 'append' \
                 and isinstance(st.value.func.value, ast.Name) and isinstance(env.get(st.value.func.value.id), ast.List) and len(st.value.args) == 1:
             lst = env[st.value.func.value.id]
@@ -1485,7 +1646,7 @@ def _parse_analysis(ctx: RuleCtx, mod: Module, report: bool) -> T.Dict[str, T.An
             if not any(k.startswith(prod + ':') for k in bad):
                 ctx.require(per.get(prod, 0) > 0, f'_parse: production `{prod}`: {per.get(prod, 0)} enumerated path(s) read / check / recurse / build exactly as the grammar prescribes',
                             mod, '_parse', f'production {prod}', f'no path of _parse implements the production `{prod}`', fn)
-        ctx.floor('_parse paths abstracted', sum(per.values()), 10)
+        ctx.floor('_parse paths abstracted', sum(per.values()), 6)
         # assertToken itself: raises exactly when the current token is not the expected member
         at = mod.func('_parse.assertToken')
         t2 = tables.extract(at, name='assertToken')
@@ -1690,7 +1851,7 @@ def r4_escape(ctx: RuleCtx) -> None:
             raise Undecided(f'_parse: assert on {short(a.test)}')
     # (6) eval_cfg: only cfg(...) is evaluated, on the text between the parentheses
     ec = mod.func('eval_cfg')
-    t3 = tables.extract(ec, name='eval_cfg')
+    t3 = tables.extract(ec, effects=eff, inline=False, name='eval_cfg')
     sw, ew = Atom('truth', ("ARG1.startswith('cfg(')",)), Atom('truth', ("ARG1.endswith(')')",))
     if not set(t3.atoms()) <= {sw, ew}:
         raise Undecided(f'eval_cfg: tests {t3.atoms()}')
@@ -1699,7 +1860,9 @@ def r4_escape(ctx: RuleCtx) -> None:
         if len(rows) != 1:
             raise Undecided(f'eval_cfg: {len(rows)} rows for {w}')
         want = "_eval_cfg(parse(lexer(ARG1[4:-1])), ARG2)" if (w[sw] and w[ew]) else 'False'
-        ctx.require(rows[0].outcome == ('return', want), f'eval_cfg: startswith cfg( = {w[sw]}, endswith ) = {w[ew]} -> {want}', mod, 'eval_cfg', f'eval_cfg {w[sw]} {w[ew]}',
+        envw, _restw = propagate(stmts_of(rows[0]))
+        gotw = ('return', norm(resolve(expr_of(rows[0].outcome[1]), envw))) if rows[0].outcome[0] == 'return' else rows[0].outcome
+        ctx.require(gotw == ('return', want), f'eval_cfg: startswith cfg( = {w[sw]}, endswith ) = {w[ew]} -> {want}', mod, 'eval_cfg', f'eval_cfg {w[sw]} {w[ew]}',
                     f'eval_cfg row `{rows[0]!r}`; expected return {want}', rows[0].path.events[-1].node if rows[0].path.events else ec)
 
 
